@@ -34,7 +34,7 @@ ROWS = {
          "T: the whole purego path of argon2crypto (Argon2IR; BLAKE2b is the only opaque primitive, spec with proved witness), indexAlpha/phi kernels",
          "argon, purego:argon (Go ×3 code paths vs model vs RFC reference; H'; blocks; indexAlpha; lanes up to 255)", "amd64 assembly executed and compared, never modelled"),
  "C05": ("totality of every model function (structural/fuel recursion), parser never stores nil and never returns an empty group, KDF totality, alphabet indices < 64, C16Decode.decode_never_panics; the regenerated programs never reach the interpreters' panic outcome on the property's domain (ParseFlow.parseFlow_never_panics, B64IR.decodeString_ir_never_panics, KdfIR/KdfIR2/DesIR/MiscIR equalities with total models)",
-         "T: parser, base64, KDF glue, DES, salt generators (the regenerated bodies) · H: panics inside reflect/strconv/stdlib", "kdf + classify + parse + dispatch + b64 + stream + codec (outcome class incl. panic/timeout under recover + watchdog; bytes ≥ 0x80; lanes ≥ 64; a process-killing crash is reported with the pending operation)", "Go-side panics inside reflect/stdlib for inputs the model accepts are only sampled"),
+         "T: parser, base64, KDF glue, DES, salt generators (the regenerated bodies) · H: panics inside reflect/strconv/stdlib", "kdf + classify + parse + dispatch + b64 + stream + codec (outcome class incl. panic/timeout under recover + watchdog; bytes ≥ 0x80; lanes ≥ 64; a process-killing crash is reported with the pending operation; a family of hanging inputs cannot stall the check: the third operation of a process that does not return stops it and the pending operation is the replay — added after seeded change C05-m5, a synchronous lexer that blocks on empty fragments, kept the quick check busy for over twenty minutes)", "Go-side panics inside reflect/stdlib for inputs the model accepts are only sampled"),
  "C06": ("Accept.unmarshal_eq_grammar_⟨S⟩ (Unmarshal accepts h with fields out ⇔ the independent recogniser Spec/Grammar.lean accepts h and reads those fields — all ten layouts, all strings), mismatch_only_when_wellformed, params_iff_unmarshal, C10.canonical_⟨S⟩, C14.guards_iff_accepts_⟨S⟩",
          "T: shapes, guards, pipeline (FlowModel), Unmarshal (CodecIRU3.unmarshal_eq_model, closed instances for the scheme structs)",
          "classify (every edit at distance 1, splices, wrap-around numbers, duplicated group members, last-symbol sweep, explicit versions, short strings); a class disagreement is a concrete misclassified string",
